@@ -708,6 +708,15 @@ def config_class(fn, kw):
         if kw.get(k) is not None:
             parts.append("weighted" if isinstance(kw[k], torch.Tensor) else "scalar-weight")
     parts.append(str(dtype_of(kw)).replace("torch.", ""))
+    if fn in ("r2_score", "R2Score") and isinstance(kw.get("target"), torch.Tensor) and kw["target"].numel() >= 2:
+        # conditioning of the sufficient-statistics form Σy² − (Σy)²/n: it loses log10(mean²/var) digits
+        t = kw["target"].to(torch.float64)
+        cols = t.reshape(t.shape[0], -1)
+        var = cols.var(dim=0, unbiased=False); m2 = cols.mean(dim=0) ** 2
+        kappa = float((m2 / var.clamp_min(1e-300)).max())
+        eps = 6e-8 if dtype_of(kw) == torch.float32 else 1.1e-16
+        if kappa * eps > 1e-4:
+            parts.append("near-constant-target")
     return ",".join(parts)
 
 
@@ -1033,7 +1042,9 @@ def cond_ne_verdict(name, z, y, w, dt):
         m = M.BinaryNormalizedEntropy(from_logits=True); m.update(zt, yt, weight=wt)
         got = float(m.compute().reshape(-1)[0])
     tol = 1e-4 if dt == torch.float32 else 1e-10
-    return abs(got - ref) <= tol * abs(ref), got, ref
+    # relative to the value, with an absolute floor on the scale of one sample's cross entropy over the base-rate entropy
+    # (O(1)): when every example is confidently RIGHT the value itself is ~1e-6 and float32's log(1+e^-z) noise is relative to 1
+    return abs(got - ref) <= tol * abs(ref) + (1e-6 if dt == torch.float32 else 1e-13), got, ref
 
 
 def cond_cov_reference(batches, dt):
@@ -1064,6 +1075,27 @@ def cond_cov_verdict(batches, split, dt, off, ref):
     tol = max(200 * eps * off / min(sd), 1e-6)
     worst = max(abs(float(gc[i][j]) - float(cov[i][j])) / (sd[i] * sd[j]) for i in range(d) for j in range(d))
     return worst <= tol, worst, tol, float(gc[0][0]), float(cov[0][0])
+
+
+COND_MSE_FORMS = ("mean_squared_error", "MeanSquaredError")
+
+
+def cond_mse_verdict(name, xs, ys, ws, dt):
+    """weighted MSE with TINY positive sample weights (importance weights of order 1e-9: total weight far below the float32
+    eps, far above the float64 eps that guards the division): the value must not depend on the scale of the weights.
+    (holds, value returned, exact Σw·(x−y)²/Σw evaluated on the very floats fed to torch)"""
+    x, y, w = (torch.tensor(v, dtype=dt) for v in (xs, ys, ws))
+    fx, fy, fw = ([Fr(float(v)) for v in t.tolist()] for t in (x, y, w))
+    ref = float(sum(c * (a - b) ** 2 for a, b, c in zip(fx, fy, fw)) / sum(fw))
+    if name == "mean_squared_error":
+        got = float(F.mean_squared_error(x, y, sample_weight=w))
+    else:
+        m = M.MeanSquaredError(); h = len(xs) // 2
+        m.update(x[:h], y[:h], sample_weight=w[:h]); m.update(x[h:], y[h:], sample_weight=w[h:])
+        got = float(m.compute())
+    # the class accumulates in float32 whatever the input dtype (a recorded C19 matter): float32-level tolerance there
+    tol = 1e-4 if (dt == torch.float32 or name == "MeanSquaredError") else 1e-9
+    return abs(got - ref) <= tol * max(abs(ref), 1e-12), got, ref
 
 
 def conditioning_stream(rep: Report, rng: Rng):
@@ -1113,6 +1145,22 @@ def conditioning_stream(rep: Report, rng: Rng):
                               f"Covariance ({dt}) on {n} rows offset by {off}: worst entry error {worst:.3g} relative to sd_i·sd_j "
                               f"(tolerance {tol:.3g}); e.g. cov[0][0] = {got00} vs definition {exp00}",
                               {"kind": "cond-cov", "batches": batches, "split": split, "dtype": str(dt).replace("torch.", ""), "off": off})
+        # (c) weighted MSE with tiny sample weights
+        for dt in (torch.float32, torch.float64):
+            n = rng.choice([4, 8])
+            xs = [float(rng.choice([0.0, 0.5, 1.0, 1.5, 2.0])) for _ in range(n)]
+            ys = [float(rng.choice([0.0, 0.25, 1.0, 3.0])) for _ in range(n)]
+            scale = rng.choice([1e-9, 3e-10, 1e-12])
+            ws = [scale * rng.choice([1.0, 2.0, 3.0, 5.0]) for _ in range(n)]
+            rep.case(nontrivial_key=("cond-mse", str(dt), tuple(xs), tuple(ys), tuple(ws)), sample=None)
+            rep.count("conditioning:mse-tiny-weights")
+            for name in COND_MSE_FORMS:
+                holds, got, ref = cond_mse_verdict(name, xs, ys, ws, dt)
+                if not holds:
+                    bad += 1
+                    rep.violation(f"C07|{name}|sample_weight|tiny-total-weight|differs-from-definition",
+                                  f"{name} with sample weights of order {scale} (total {sum(ws):.3g}, {dt}) returns {got} but Σw·(x−y)²/Σw is {ref}",
+                                  {"kind": "cond-mse", "fn": name, "x": xs, "y": ys, "w": ws, "dtype": str(dt).replace("torch.", ""), "expected": ref, "got": got})
         if bad > 6:
             break
     rep.streams["conditioning"] = {"rounds": reps, "violations": bad}
@@ -1223,6 +1271,13 @@ def replay(payload) -> bool:
         if not holds:
             print(f"replay: {r['fn']} returns {got}, the definition gives {ref}")
         return bool(holds)
+    if kind == "cond-mse":
+        if r.get("fn") not in COND_MSE_FORMS or not all(isinstance(r.get(k), list) for k in ("x", "y", "w")):
+            _nothing("cond-mse payload without the form and the x / y / w lists")
+        holds, got, ref = cond_mse_verdict(r["fn"], r["x"], r["y"], r["w"], _dtype_of_name(r.get("dtype")))
+        if not holds:
+            print(f"replay: {r['fn']} returns {got}, the definition gives {ref}")
+        return bool(holds)
     if kind == "cond-cov":
         if not isinstance(r.get("batches"), list) or not isinstance(r.get("split"), int) or not isinstance(r.get("off"), (int, float)):
             _nothing("cond-cov payload without batches, split and the offset that scales the tolerance")
@@ -1234,4 +1289,4 @@ def replay(payload) -> bool:
         if not holds:
             print(f"replay: worst covariance entry error {worst:.3g} (tolerance {tol:.3g})")
         return bool(holds)
-    _nothing(f"replay kind {kind!r} is not one of functional / cov-stream / minmax-stream / fad-moments / cond-ne / cond-cov")
+    _nothing(f"replay kind {kind!r} is not one of functional / cov-stream / minmax-stream / fad-moments / cond-ne / cond-cov / cond-mse")
